@@ -7,13 +7,11 @@ import WowSrp.Gen.Constants
 namespace WowSrp
 
 /-- C02: proofs and keys are compared by the derived whole-array equality (the Model compares whole lists) -/
-theorem C02_source_whole_array_equality : Gen.keyWrapperDerivesEq = true := by decide
+theorem C02_source_whole_array_equality : Gen.keyWrapperDerivesEq = true := by decide +kernel
 
 /-- C02/C03: M1 = H(xor | H(U) | salt | A | B | K), server side (precomputed xor) and client side -/
 theorem C02_source_layout_M1 :
-    Gen.layoutClientProof = [["username.as_ref()"], ["PRECALCULATED_XOR_HASH", "username_hash", "salt.as_le_bytes()",
-      "client_public_key.as_le_bytes()", "server_public_key.as_le_bytes()", "session_key.as_le_bytes()"]] ∧
-    Gen.layoutClientProofCustom = [["username.as_ref()"], ["xor_hash.as_le_bytes()", "username_hash", "salt.as_le_bytes()",
-      "client_public_key.as_le_bytes()", "server_public_key.as_le_bytes()", "session_key.as_le_bytes()"]] := by decide
+    Gen.layoutClientProof = [["username.as_ref()"], ["PRECALCULATED_XOR_HASH", "username_hash", "salt.as_le_bytes()", "client_public_key.as_le_bytes()", "server_public_key.as_le_bytes()", "session_key.as_le_bytes()"], ["ctors:Sha1::new,Sha1::new", "methods:chain_update,chain_update,chain_update,chain_update,chain_update,chain_update,chain_update,finalize,finalize", "control:", "rebound:", "tail:Proof::from_le_bytes(out)"]] ∧
+    Gen.layoutClientProofCustom = [["username.as_ref()"], ["xor_hash.as_le_bytes()", "username_hash", "salt.as_le_bytes()", "client_public_key.as_le_bytes()", "server_public_key.as_le_bytes()", "session_key.as_le_bytes()"], ["ctors:Sha1::new,Sha1::new", "methods:chain_update,chain_update,chain_update,chain_update,chain_update,chain_update,chain_update,finalize,finalize", "control:", "rebound:", "tail:Proof::from_le_bytes(out)"]] := by decide +kernel
 
 end WowSrp
